@@ -21,6 +21,7 @@ import (
 	commonv2 "metacontroller/pkg/controller/common/api/v2"
 	v1 "metacontroller/pkg/controller/common/customize/api/v1"
 	"metacontroller/pkg/hooks"
+	"sync"
 	"time"
 
 	"k8s.io/apimachinery/pkg/types"
@@ -59,8 +60,9 @@ type Manager struct {
 	dynInformers    *dynamicinformer.SharedInformerFactory
 	parentInformers common.InformerMap
 
-	relatedInformers common.InformerMap
-	customizeCache   *cache.Cache[customizeKey, *v1.CustomizeHookResponse]
+	relatedInformers     common.InformerMap
+	relatedInformersLock sync.Mutex
+	customizeCache       *cache.Cache[customizeKey, *v1.CustomizeHookResponse]
 
 	stopCh chan struct{}
 
@@ -125,6 +127,8 @@ func (rm *Manager) Start(stopCh chan struct{}) {
 }
 
 func (rm *Manager) Stop() {
+	rm.relatedInformersLock.Lock()
+	defer rm.relatedInformersLock.Unlock()
 	for _, informer := range rm.relatedInformers {
 		informer.Informer().RemoveEventHandlers()
 		informer.Close()
@@ -161,6 +165,10 @@ func (rm *Manager) getRelatedClient(apiVersion, resource string) (*dynamicclient
 		return nil, nil, err
 	}
 	groupVersion, _ := schema.ParseGroupVersion(apiVersion)
+	// Syncs of different parents, and the per-revision calls of one rolling
+	// update, get here concurrently.
+	rm.relatedInformersLock.Lock()
+	defer rm.relatedInformersLock.Unlock()
 	informer := rm.relatedInformers.Get(groupVersion.WithResource(resource))
 	if informer == nil {
 		informer, err = rm.dynInformers.Resource(apiVersion, resource)
